@@ -191,22 +191,76 @@ def fault_points(n_cmdlike=40):
     return list(range(0, 48)) + [63, 64, 100, 255, 256, 257, 1000, 4095, 4096, 4097, 4999, 5000, 5001,
                                  9999, 12345, 20000, 33599, 33600, 48000, 100000, 134399, 134400, 192000]
 
-def suite_fault(p, rng, dense=False):
-    """for every canonical op: new; [prefix]; op with the k-th transfer failing; then a recovery suffix."""
+def transfer_points(lines, cap=160):
+    """fault points for one API call from its fault-free REAL trace (canonical harness lines): the transfer index of
+    every command byte, the transfer after it, both ends and the middle of every data run, every change of chunk size
+    inside a run, the last transfer of the call and one index beyond it."""
+    k = 0
+    must, nice = set(), set()
+    for l in lines:
+        t = l.split(' ')
+        if t[0] in ('C', 'CL'):
+            must.add(k)
+            nice.add(k + 1)
+            k += 1
+        elif t[0] == 'Z' and len(t) >= 5:
+            n = 0
+            for g in t[4].split(','):
+                try:
+                    cnt = int(g.split('*')[1])
+                except (IndexError, ValueError):
+                    cnt = 0
+                if cnt:
+                    must.add(k + n)
+                    nice.add(k + n + cnt - 1)
+                n += cnt
+            if n:
+                must.add(k + n - 1)
+                nice.add(k + n // 2)
+                nice.add(k + 1)
+            k += n
+    if k:
+        must.add(k - 1)
+    must.add(k)
+    pts = sorted(must)
+    if len(pts) > cap:
+        # keep both ends dense, thin the middle deterministically
+        step = len(pts) / float(cap)
+        pts = sorted(set(pts[:40] + pts[-40:] + [pts[int(i * step)] for i in range(cap)]))
+    extra = [x for x in sorted(nice) if x not in must and x <= k]
+    room = max(0, cap - len(pts))
+    if len(extra) > room:
+        step = len(extra) / float(max(1, room))
+        extra = [extra[int(i * step)] for i in range(room)]
+    return sorted(set(pts + extra))
+
+def fault_ops(p):
+    return [a for a in canon_ops(p) if a[0] not in ('width', 'height', 'background_color', 'set_background_color')]
+
+def suite_faultprobe(p):
+    """the fault-free calls whose real traces give the fault points (tools/vlib.py fault_plan)"""
+    return [case("q%d" % i, p, [['new'], a]) for i, a in enumerate(fault_ops(p))]
+
+def suite_fault(p, rng, dense=False, plan=None):
+    """for every canonical op: new; op with the k-th transfer failing; then a recovery suffix.  With a plan (from the
+    fault-free real traces) k ranges over every command transfer of the call, the ends / middle / chunk boundaries of
+    every data run and the last transfer; without one (or additionally, in the dense suite) over a fixed list."""
     out = []
-    ops = canon_ops(p)
+    ops = fault_ops(p)
     rec = [['wake_up'], ['update_frame', buf(p.frame, 'r', 20)], ['display_frame']]
     i = 0
     ks = fault_points()
     if not dense:
         ks = [k for k in ks if k < 12 or k in (17, 30, 47, 100, 4096, 5000, 33600)] + [rng.below(300) for _ in range(3)]
-    for k in sorted(set(ks)):
+    plan = plan or {}
+    k0 = (plan.get('new') or []) + (ks if (dense or 'new' not in plan) else [0, 1, 2])
+    for k in sorted(set(k0)):
         out.append(case("f%d" % i, p, [['new']] + rec, fault="0:%d" % k))
         i += 1
     for a in ops:
-        if a[0] in ('width', 'height', 'background_color', 'set_background_color'):
-            continue
-        for k in sorted(set(ks)):
+        key = ' '.join(a)
+        ka = (plan.get(key) or []) + (ks if (dense or key not in plan) else [0, 1, 2])
+        for k in sorted(set(ka)):
             out.append(case("f%d" % i, p, [['new'], a] + rec, fault="1:%d" % k))
             i += 1
     return out
@@ -344,7 +398,7 @@ def suite_pair(p, rng, cap=450):
         out.append(case("q%d" % i, p, [['new']] + M[a] + M[b], delay=['none', '0', '1', '250'][i % 4]))
     return out
 
-def suite(p, name, rng):
+def suite(p, name, rng, plan=None):
     if name == 'win':
         return suite_win(p, rng)
     if name == 'pair':
@@ -368,9 +422,11 @@ def suite(p, name, rng):
     if name == 'env':
         return suite_env(p, rng)
     if name == 'fault':
-        return suite_fault(p, rng)
+        return suite_fault(p, rng, plan=plan)
     if name == 'faultdense':
-        return suite_fault(p, rng, dense=True)
+        return suite_fault(p, rng, dense=True, plan=plan)
+    if name == 'faultprobe':
+        return suite_faultprobe(p)
     if name == 'rand':
         return suite_rand(p, rng)
     raise KeyError(name)
